@@ -35,6 +35,17 @@ fn main() {
                 }
             }
         }
+        "selftest" => check::selftest(args.get(2).and_then(|s| s.parse().ok()).unwrap_or(2000)),
+        "hashes" => {
+            let id = args.get(2).expect("property id");
+            let count: u64 = args.get(3).and_then(|s| s.parse().ok()).unwrap_or(10);
+            let threads: usize = args.get(4).and_then(|s| s.parse().ok()).unwrap_or(1);
+            let spec = props::spec(id).expect("known property");
+            for (i, h) in check::hashes(spec, spec.default_seed, count, threads) {
+                println!("{i} {h:016x}");
+            }
+            0
+        }
         "probe-batch" => sweep::probe_batch_main(),
         "probe-decode" => sweep::probe_decode_main(args.get(2).map(|s| s.as_str()).unwrap_or(""), args.get(3).map(|s| s.as_str()).unwrap_or("")),
         "replay" => check::replay_file(args.get(2).expect("replay file")),
